@@ -172,6 +172,31 @@ theorem findAllMatches_disjoint_partial (p : Pat) (toks : List Nat) (found : Lis
     obtain ⟨hm, hd⟩ := dropAdj_disjoint rest a (a.1 + a.2) (Nat.le_refl _) rfl hs he
     exact ⟨_, rfl, List.pairwise_cons.mpr ⟨hm, hd⟩⟩
 
+/-- w26: `findAllMatches_disjoint_partial` without its derivable hypothesis `hs` and without a given `found` (audit w22
+§4 C01 (c)): under the `Contract` the raw matches exist and have strictly increasing starts by themselves
+(`collectMatches_safe`), so monotone ENDS of the raw matches are all that "all non-overlapping pattern matches" needs. -/
+theorem findAllMatches_disjoint_of_contract (p : Pat) (h : Contract p) (toks : List Nat)
+    (he : ∀ found, collectMatches p 0 toks = .ok found → found.Pairwise (fun a b => a.1 + a.2 ≤ b.1 + b.2)) :
+    ∃ ms, findAllMatches p toks = .ok ms ∧ ms.Pairwise (fun a b => a.1 + a.2 ≤ b.1) ∧
+      (∀ m ∈ ms, 1 ≤ m.2 ∧ m.1 + m.2 ≤ toks.length) := by
+  obtain ⟨found, hf, _, hs, _⟩ := collectMatches_safe p h toks 0
+  obtain ⟨ms, hms, hd⟩ := findAllMatches_disjoint_partial p toks found hf hs (he found hf)
+  obtain ⟨ms', hms', hb, _⟩ := findAllMatches_safe p h toks
+  rw [hms] at hms'
+  cases hms'
+  exact ⟨ms, hms, hd, hb⟩
+
+/-- non-vacuity: `word ws word` keeps the contract, its raw matches on `a b c d` all have length 3 -/
+example : ∃ ms, findAllMatches (.seq (.ofList [.leaf 0, .whitespace, .leaf 0])) [0, 1, 0, 1, 0, 1, 0] = .ok ms ∧
+    ms.Pairwise (fun a b => a.1 + a.2 ≤ b.1) ∧ (∀ m ∈ ms, 1 ≤ m.2 ∧ m.1 + m.2 ≤ 7) :=
+  findAllMatches_disjoint_of_contract _ (by simp [Contract, ContractL, PatList.ofList]) _ (by
+    intro found hf
+    have : collectMatches (.seq (.ofList [.leaf 0, .whitespace, .leaf 0])) 0 [0, 1, 0, 1, 0, 1, 0] =
+        .ok [(0, 3), (2, 3), (4, 3)] := by decide
+    rw [this] at hf
+    cases hf
+    decide)
+
 /-! ### `iter_chunks`, `iter_sentences`, `iter_paragraphs` (any terminator predicate) -/
 
 /-- the chunks, concatenated, are the token list: nothing lost, duplicated or reordered;
